@@ -167,6 +167,19 @@ CLAIMED["C02"] = (
     "Trusted: Lean kernel; standard axioms; harness; astropy model inverses for leaves (modelled). Runtime behaviour not modelled: IEEE rounding, wcslib.",
     "Lean 4 structural-induction proofs on the transform algebra + exact differential correspondence", "DESIGN.md §6 C02")
 
+CLAIMED["C12"] = (
+    "Lean 4 theorems on the frame bookkeeping of CompositeFrame (any number of sub-frames, any axes_order lists): scattering a sub-frame's "
+    "per-axis metadata by axes_order puts the entry of (frame f, local axis k) at world axis axes_order[f][k] and nowhere else "
+    "(metadata_aligned), duplicate or incomplete axes are rejected, each sub-frame is handed exactly the world values on its own axes in its "
+    "local order (objects_get_own_axes), coordinate_to_quantity after coordinates is the identity on world vectors for every permutation "
+    "(objects_roundtrip), and the class-key renaming yields pairwise distinct keys for any list of frames and keys (rename_unique, "
+    "pickFresh_not_mem). PARTIAL: astropy's SkyCoord/SpectralCoord/Time/StokesCoord constructors are tagged tuples in the model; lone frames "
+    "with swapped axes (D11) and nested generic sub-frames (D30) are recorded findings. Tied to gwcs by correspondence on generated frame "
+    "layouts: per-axis provenance, components and class keys agree with the model; metadata, object values/units, astropy's generic "
+    "machinery and the three round trips are measured on the real WCS with distinct asymmetric pixels, scalar and array.",
+    "Trusted: Lean kernel; standard axioms; harness; astropy coordinate classes (modelled). Runtime behaviour not modelled: unit conversion and Time arithmetic rounding.",
+    "Lean 4 proofs over lists/permutations (scatter/gather, freshness induction) + differential correspondence on generated frame layouts", "DESIGN.md §6 C12")
+
 NOT_YET = "check not built yet in this round; will be claimed once its Lean model, theorems and correspondence run green"
 
 
